@@ -41,7 +41,7 @@ contract(f"{M}:pack_rtcp_packet", params={"packet_type": "int", "count": "int", 
 
 # ---------------------------------------------------------------------------- REMB
 contract(f"{M}:unpack_remb_fci", params={"data": "bytes"}, returns="tuple[int, list[int]]",
-         raises={"ValueError": None},
+         raises={"ValueError": "len(data) < 8 or data[0:4] != b'REMB' or len(data) < 8 + 4 * data[4]"},
          ensures=["len(data) >= 8 + 4 * data[4]",
                   "result[0] == (((data[5] % 4) * 65536 + data[6] * 256 + data[7]) * pow2(data[5] // 4))",
                   "len(result[1]) == data[4]",
